@@ -25,7 +25,7 @@ func RunPerNode(e *Env) {
 		"with no-send-waiting they must return while the node's sender goroutine is held at the snd.beforeWrite hook (before any write or confirmation exists); then the gates open and delivery is exactly once; distinct = case parameters"
 	R.Assume("digest covers every request field (call, seq, target, kind, script, pad)")
 	rng := e.Rand(6)
-	ncase := e.Pick(500, 12000)
+	ncase := e.Pick(2000, 100000)
 	var wg sync.WaitGroup
 	sem := make(chan struct{}, 8)
 	for i := 0; i < ncase; i++ {
@@ -46,7 +46,7 @@ func RunPerNode(e *Env) {
 	}
 	wg.Wait()
 	// part B: one at a time (uses holds on the global hook)
-	nb := e.Pick(30, 400)
+	nb := e.Pick(60, 2000)
 	for i := 0; i < nb; i++ {
 		if e.Of > 1 && i%e.Of != e.Batch {
 			continue
